@@ -132,6 +132,7 @@ def main(argv=None) -> int:
     ap.add_argument('--replay')
     ap.add_argument('--jobs', type=int, default=int(os.environ.get('VERIF_JOBS') or min(16, os.cpu_count() or 4)))
     ap.add_argument('--no-evidence', action='store_true')
+    ap.add_argument('--dump', help='write all violations as JSON (triage aid)')
     args = ap.parse_args(argv)
     prop = args.property.upper()
     seed = int(os.environ.get('VERIF_SEED') or 0)
@@ -178,6 +179,9 @@ def main(argv=None) -> int:
     for res in results.values():
         violations += res.get('violations', [])
     violations += fin.get('violations', [])
+    if args.dump:
+        with open(args.dump, 'w') as f:
+            json.dump(_jsonable(violations), f)
     n_unknown, n_known = report(prop, violations)
     wall = time.time() - t0
     cov = fin['coverage']
